@@ -55,7 +55,8 @@ def step_file(d):
         p = family.member_of(d, violating=0.0, ftype="h", opts={"small": True})
         return k, p.name, p.text
     if k == "viol":
-        p = family.member_of(d, violating=1.0, opts={"small": True})
+        # (the naming and counting rules keep per-name / per-scope records: a share of the violating files exercises them)
+        p = family.member_of(d, violating=1.0, opts={"small": True}, prefer=("D11", "D12", "F03", "P01", "T06", "T07", "T08", "T09", "D09", "F07", "F11", "D10"))
         return k, p.name, p.text
     if k == "fatal-garbage":
         p = family.member_of(d, violating=0.0, ftype="c", opts={"small": True})
@@ -102,8 +103,10 @@ def history(d):
                     ln = "# define FT_SOMETHING_ELSE"
                 out.append(ln)
             s = {"cls": "guard-variant", "name": src["name"], "text": "\n".join(out)}
-        elif steps and d.bool(0.15):
-            s = dict(d.choice(steps))
+        elif steps and d.bool(0.2):
+            # the same file again: a violating one by preference (what was reported once must be reported again)
+            vs = [x for x in steps if x["cls"] in ("viol", "lexical", "guard-variant", "broken-header")]
+            s = dict(d.choice(vs) if vs and d.bool(0.7) else d.choice(steps))
         elif steps and d.bool(0.12):
             # the same content under another base name (for a header the expected guard follows the name)
             src = d.choice(steps)
